@@ -50,7 +50,7 @@ class C03(Property):
             'valid program, or valid with start offset != 0; distinct by case hash; outcome histogram in classes')
 
     def budget(self, tier):
-        return 24000 if tier == 'quick' else 600000
+        return 60000 if tier == 'quick' else 600000
 
     def explicit_cases(self, ctx):
         sizes = (60, 120) if ctx.tier == 'quick' else (60, 500, 4000, 16000)
